@@ -432,6 +432,27 @@ def run_notation(res):
             if abs(got - z) > 1e-12 * abs(z):
                 add_violation(res, "notations_agree", dict(case, notation=name), z, got, "notation %s denotes another number" % name)
             res["fps"].add(fp(got))
+        # a document written in polar notation, once loaded, is a document with complex values like any other:
+        # it survives both round trips of the library
+        import json as _json
+        text = _json.dumps({"k": {"abs": abs(z), "phase": cmath.phase(z)}, "lst": [{"z": {"abs": abs(z), "phase_deg": math.degrees(cmath.phase(z))}}, 2.5]})
+        for fmt in ("json", "yaml"):
+            res["transitions"] += 1
+            bump(res["hits"], "roundtrip_" + fmt)
+            c2 = dict(case, notation="polar document loaded, then %s round trip" % fmt)
+            try:
+                loaded = dl.deserialize(text, "json")
+                again = dl.deserialize(dl.serialize(loaded, fmt), fmt)
+            except Exception as e:
+                add_violation(res, "roundtrip_" + fmt, c2, z, "%s: %s" % (type(e).__name__, e), "a loaded polar document does not survive the %s round trip" % fmt, kind="exception:" + type(e).__name__)
+                continue
+            try:
+                vals = [complex(again["k"]), complex(again["lst"][0]["z"])]
+                ok = all(abs(v - z) <= 1e-12 * abs(z) for v in vals) and again["lst"][1] == 2.5 and deep_equal(again, loaded)
+            except Exception:
+                ok = False
+            if not ok:
+                add_violation(res, "roundtrip_" + fmt, c2, z, enc(again), "a loaded polar document changed in the %s round trip" % fmt)
 
 
 # ------------------------------------------------------------------ nested documents
